@@ -310,4 +310,8 @@ func runC13(c *Ctx) {
 	bad, w := p.Reach(After(wa, setLB), func(in ssa.Instruction) bool { return setLB(in) }, CutSpec{Nodes: queue})
 	c.Check(!bad, "R13.5", FuncName(wa)+" :: every received event is queued (no path to the next event that skips the append)", fpos(wa), "yes", "an event can be dropped: "+strings.Join(w, " "))
 	_ = rangeBody
+
+	// ---------- R13.6 (shared with C12 R12.3)
+	c.Import(runC12, "R12.3", "", "R13.6", "E1", "every bookmark the store hands out (events, Bootstrapped, Noop) encodes the position just before the next event this watch will deliver: the client resumes from it, so a bookmark taken from another position is a silent gap", 1)
+
 }
